@@ -113,6 +113,10 @@ func (g *gen) printSortFunc(typ *types.Slice) error {
 		case types.Complex64, types.Complex128, types.Bool:
 			p.P(g.sortPkg() + ".Slice(list, func(i, j int) bool { return " + g.compare.GetFuncName(etyp, etyp) + "(list[i], list[j]) < 0 })")
 		default:
+			if ttyp.Info()&types.IsOrdered == 0 {
+				// unsafe.Pointer
+				return fmt.Errorf("unsupported compare type: %s", g.TypeString(typ))
+			}
 			p.P(g.sortPkg() + ".Slice(list, func(i, j int) bool { return list[i] < list[j] })")
 		}
 	case *types.Pointer, *types.Struct, *types.Slice, *types.Array, *types.Map:
